@@ -8,7 +8,7 @@
    model's exact result, the second is the sum of the absolute values of all terms that were added
    to obtain it: the quantity a forward rounding-error bound for a sum of products is relative to.
    A float result x of the implementation is accepted iff |x - v| <= gamma * b  (check `close`). *)
-From Coq Require Import List Arith Bool ZArith NArith Lia.
+From Coq Require Import List Arith Bool ZArith NArith Lia PrimFloat FloatOps SpecFloat.
 From Verif.lib Require Import FinSet.
 From Verif.C04 Require Import Model.
 From Verif.C03 Require Import Model.
@@ -25,6 +25,18 @@ Definition dleb (a b : dy) : bool := let xy := dalign a b in (fst xy <=? snd xy)
 Definition deqb (a b : dy) : bool := let xy := dalign a b in (fst xy =? snd xy)%Z.
 Definition d0 : dy := (0%Z, 0%Z).
 Definition d1 : dy := (1%Z, 0%Z).
+
+(* a binary64 literal of a case file as the dyadic number it denotes (exact; inf/nan never occur:
+   the harness rejects non-finite results before writing a case file) *)
+Definition f2d (x : float) : dy :=
+  match Prim2SF x with
+  | S754_finite s m e => ((if s then Zneg m else Zpos m), e)
+  | _ => d0
+  end.
+
+(* constructors used by the case files (their argument types select the notation scopes) *)
+Definition E (j : N) (x : float) : N * float := (j, x).
+Definition F (x : float) : float := x.
 
 Definition bv := (dy * dy)%type.
 Definition b0 : bv := (d0, d0).
@@ -68,8 +80,10 @@ Fixpoint vec_close (g : dy) (m : list bv) (x : list dy) : bool :=
   | _, _ => false
   end.
 
-Definition injrows (M : list (list (N * dy))) : list (list (N * bv)) :=
-  map (map (fun e => (fst e, inj (snd e)))) M.
+Definition injrows (M : list (list (N * float))) : list (list (N * bv)) :=
+  map (map (fun e => (fst e, inj (f2d (snd e))))) M.
+Definition drows (M : list (list (N * float))) : list (list (N * dy)) :=
+  map (map (fun e => (fst e, f2d (snd e)))) M.
 
 Fixpoint leqN (a b : list N) : bool :=
   match a, b with [], [] => true | x :: a', y :: b' => N.eqb x y && leqN a' b' | _, _ => false end.
@@ -86,14 +100,14 @@ Fixpoint lall {A B : Type} (f : A -> B -> bool) (a : list A) (b : list B) : bool
 (* one form of a case: level data + what the implementation returned *)
 Record formdata := mk_form {
   fd_arity : nat;
-  fd_lev : list (list (list (N * dy)));      (* arity 2: full level matrices (rows) *)
-  fd_blev : list (list dy);                  (* arity 1: full level vectors *)
-  fd_hb : option (list (list (N * dy)));     (* assemble(.., symmetric=False), truncate=False *)
-  fd_hb_sym : option (list (list (N * dy)));
-  fd_thb : option (list (list (N * dy)));
-  fd_thb_sym : option (list (list (N * dy)));
-  fd_vec_hb : option (list dy);
-  fd_vec_thb : option (list dy);
+  fd_lev : list (list (list (N * float)));      (* arity 2: full level matrices (rows) *)
+  fd_blev : list (list float);                  (* arity 1: full level vectors *)
+  fd_hb : option (list (list (N * float)));     (* assemble(.., symmetric=False), truncate=False *)
+  fd_hb_sym : option (list (list (N * float)));
+  fd_thb : option (list (list (N * float)));
+  fd_thb_sym : option (list (list (N * float)));
+  fd_vec_hb : option (list float);
+  fd_vec_thb : option (list float);
   fd_calls : list (nat * list N * list (nat * nat)) }.   (* (k, rows, bbox) of every _assemble_level call, HB general run *)
 
 Record ccase := mk_case {
@@ -101,10 +115,10 @@ Record ccase := mk_case {
   cc_disp : option nat;
   cc_ops : list op;
   cc_bds : bdspecs;
-  cc_P : list (list (list (list (N * dy))));  (* level -> axis -> rows *)
+  cc_P : list (list (list (list (N * float))));  (* level -> axis -> rows *)
   cc_levels : list (list (list mi));          (* per level: active cells, deactivated cells, actfun, deactfun *)
   cc_cell_supp : list (list (list N));        (* cell_supp_indices(remove_dirichlet=False)[lv][i], raveled *)
-  cc_T : option (list (list (N * dy)));       (* thb_to_hb() *)
+  cc_T : option (list (list (N * float)));       (* thb_to_hb() *)
   cc_forms : list formdata;
   cc_entry_samples : list (nat * nat) }.      (* positions (i, j) of the flat function list at which the
                                                  sparse program is compared with the entry form blk_entry *)
@@ -130,12 +144,12 @@ Definition cell_supp_ok : bool :=
 
 Definition T_model : list (list (N * bv)) := thb_to_hb bv b1 badd bmul bopp st pm.
 Definition T_ok : bool :=
-  match cc_T c with None => true | Some T => mat_close gamma T_model T end.
+  match cc_T c with None => true | Some T => mat_close gamma T_model (drows T) end.
 
 Section Form.
 Variable f : formdata.
 Definition al (k : nat) : list (list (N * bv)) := injrows (nth k (fd_lev f) []).
-Definition bl (k : nat) : list bv := map inj (nth k (fd_blev f) []).
+Definition bl (k : nat) : list bv := map (fun x => inj (f2d x)) (nth k (fd_blev f) []).
 
 (* the rows / bounding boxes HDiscretization asked for, exactly *)
 Definition calls_ok : bool :=
@@ -144,15 +158,15 @@ Definition calls_ok : bool :=
           && leqP (bbox st k (to_assemble bv st pm k)) bb)
        (seq 0 (length (fd_calls f))) (fd_calls f).
 
-Definition opt_mat_ok (truncate symm : bool) (o : option (list (list (N * dy)))) : bool :=
+Definition opt_mat_ok (truncate symm : bool) (o : option (list (list (N * float)))) : bool :=
   match o with
   | None => true
-  | Some M => mat_close gamma (assemble_matrix bv b1 badd bmul bopp st pm al truncate symm) M
+  | Some M => mat_close gamma (assemble_matrix bv b1 badd bmul bopp st pm al truncate symm) (drows M)
   end.
-Definition opt_vec_ok (truncate : bool) (o : option (list dy)) : bool :=
+Definition opt_vec_ok (truncate : bool) (o : option (list float)) : bool :=
   match o with
   | None => true
-  | Some x => vec_close gamma (assemble_functional bv b0 b1 badd bmul bopp st pm bl truncate) x
+  | Some x => vec_close gamma (assemble_functional bv b0 b1 badd bmul bopp st pm bl truncate) (map f2d x)
   end.
 
 (* link between the sparse program and the entry form of the blocks (a test on sampled positions):
